@@ -105,14 +105,14 @@ func OStructInRepo(w *World) error {
 		}
 		ti := w.typeInfo(c.TypeID, c.Comp)
 		if c.IsMap {
-			if err := atree.VerifyMap(c.Map, c.SID.Address(), ti, tu.CompareTypeInfo, tu.GetHashInput, true); err != nil {
+			if err := atree.VerifyMap(c.Map, c.SID.Address(), ti, CompareTypeInfo, tu.GetHashInput, true); err != nil {
 				return violf("VerifyMap(c%d): %v", c.Serial, err)
 			}
 			if err := atree.VerifyMapSerialization(c.Map, decMode, encMode, DecodeStorable, DecodeTypeInfo, storableEqual); err != nil {
 				return violf("VerifyMapSerialization(c%d): %v", c.Serial, err)
 			}
 		} else {
-			if err := atree.VerifyArray(c.Arr, c.SID.Address(), ti, tu.CompareTypeInfo, tu.GetHashInput, true); err != nil {
+			if err := atree.VerifyArray(c.Arr, c.SID.Address(), ti, CompareTypeInfo, tu.GetHashInput, true); err != nil {
 				return violf("VerifyArray(c%d): %v", c.Serial, err)
 			}
 			if err := atree.VerifyArraySerialization(c.Arr, decMode, encMode, DecodeStorable, DecodeTypeInfo, storableEqual); err != nil {
